@@ -12,6 +12,7 @@ import WhVerif.Lemmas.C06IndelNoRef
 import WhVerif.Lemmas.C06Affine
 import WhVerif.Lemmas.C06Filter
 import WhVerif.Lemmas.C06SecondIndel
+import WhVerif.Lemmas.C06AffineStrip
 /-!
 # C06 — allele detection never assigns the wrong allele to an error-free read: theorems about the model
 
@@ -942,6 +943,20 @@ theorem affineDP_attained_and_minimal (gs ge : Nat) (q : QSeq) (r : List Char) :
   rw [ht]
   exact ⟨T_best_attained gs ge _ _ t ht, fun cs hcs => T_best_le gs ge _ _ cs hcs t ht⟩
 
+/-- DP correctness of the whole function: `edit_distance_affine_gap` — identical prefixes and suffixes skipped, then the
+three-table DP — is the minimum cost over ALL alignments whenever extending a gap is not dearer than starting one
+(`gap_extend ≤ gap_start`; defaults 7 ≤ 10).  (Equal end bases can be aligned to each other without loss: exchange
+argument on the recurrences, `Tg_best_cons_same`; the front of the strings by the reversal symmetry of the cost,
+`affineSpec_reverse`.)  For `gap_extend > gap_start` the shortcut is NOT minimal: see the example below. -/
+theorem editDistanceAffine_is_min_over_alignments (gs ge : Nat) (hge : ge ≤ gs) (q : QSeq) (r : List Char) :
+    editDistanceAffine gs ge q r = affineSpec gs ge q r :=
+  editDistanceAffine_eq_affineSpec gs ge hge q r
+
+/-- reversing both sequences does not change the minimum alignment cost -/
+theorem affineSpec_reverse_invariant (gs ge : Nat) (q : QSeq) (r : List Char) :
+    affineSpec gs ge q.reverse r.reverse = affineSpec gs ge q r :=
+  affineSpec_reverse gs ge q r
+
 /-- `edit_distance_affine_gap` (with the shortcut) is 0 exactly for a query equal to the other sequence, when the gap
 start cost and all mismatch costs are positive (the defaults: 10 and 15) -/
 theorem editDistanceAffine_zero_iff (gs ge : Nat) (hgs : 0 < gs) (q : QSeq) (r : List Char) (hmm : ∀ x ∈ q, 0 < x.2) :
@@ -1064,6 +1079,14 @@ example : editDistanceAffine 1 5 [('A', 1)] ['A', 'A', 'A'] = 6 ∧ affineDP 1 5
   constructor <;>
     simp [editDistanceAffine, stripPre, stripSuf, affineDP, dpCols, nextCol, colGo, initCol, initGo, Cell.best, cmin3,
       cmin, cadd, gapCost]
+
+example : editDistanceAffine 10 7 [('A', 15), ('C', 15), ('G', 15), ('A', 15)] ['A', 'G', 'A'] = 10 ∧
+    affineSpec 10 7 [('A', 15), ('C', 15), ('G', 15), ('A', 15)] ['A', 'G', 'A'] = 10 := by
+  have h := editDistanceAffine_is_min_over_alignments 10 7 (by decide) [('A', 15), ('C', 15), ('G', 15), ('A', 15)] ['A', 'G', 'A']
+  have h1 : editDistanceAffine 10 7 [('A', 15), ('C', 15), ('G', 15), ('A', 15)] ['A', 'G', 'A'] = 10 := by
+    simp [editDistanceAffine, stripPre, stripSuf, affineDP, dpCols, nextCol, colGo, initCol, initGo, Cell.best, cmin3, cmin,
+      cadd, gapCost]
+  exact ⟨h1, by rw [← h, h1]⟩
 
 example : editDistanceAffine 10 7 [('A', 15), ('C', 15)] ['A', 'C'] = 0 :=
   (editDistanceAffine_zero_iff 10 7 (by decide) _ _ (by decide)).2 rfl
